@@ -6,6 +6,21 @@ ALL = ["C%02d" % i for i in range(1, 21)]
 
 # id -> dict(level_text, level_note, technique, design_ref)
 CLAIMED = {
+ "C03": dict(
+   text="Real ignore files on a scratch tree, verdicts through IgnoreFilterer::check_event / IgnoreFilter::check_dir compared with an independent gitignore evaluator (own glob matcher; nearest directory's files first with path-then-parents inside each, last line wins, then farther, then global) restricted to the region where it agrees with a second, git top-down evaluator; plus four metamorphic relations that need no model: removing the ignore file of D never changes a verdict outside D, permutations preserving same-directory order give identical verdicts, rebuilding from identical inputs gives identical verdicts, new(all) == new(prefix)+add_file(rest). Directory alphabets are built to contain test/tests-style prefix siblings; 30% negations.",
+   note="git check-ignore third opinion not built (two independent evaluators are used instead). A directory versus an ignore file stored in that very directory, and semantics-divergent probes, are labelled and not asserted, as the property states. Outside-origin probes only go through the metamorphic relations.",
+   technique="proptest with an independent reference evaluator (differential) + metamorphic relations on generated trees",
+   ref="DESIGN.md §3 C03"),
+ "C11": dict(
+   text="GlobsetFilterer::check_event verdicts for generated configurations (0-3 filter patterns, 0-3 ignore patterns with negations, 0-2 extensions, optional whitelist, optional origin-level ignore file) and events of 0-3 paths (file/dir/unknown, inside/outside the origin) compared with the documented composition evaluated by the independent matcher (path-only matching relative to the origin, 1.x double-slash compatibility, extension rule), plus laws asserted independently: empty configuration passes everything, an ignore match beats a filter match, appending a non-negated ignore pattern never turns a rejection into a pass.",
+   note="Filter lists always contain at least one non-negated pattern (an all-negated list is not settled by the docs). The CLI layer (fs-event kinds, filter programs) is covered by C12 only as far as --fs-events.",
+   technique="proptest differential against an independent matcher + algebraic laws (monotonicity, precedence)",
+   ref="DESIGN.md §3 C11"),
+ "C14": dict(
+   text="ignore_files::from_origin on generated real trees (tmpfs; prefix-sibling names; .ignore/.gitignore/.hgignore that are non-empty, empty or directories; origin-level VCS files; VCS metadata dirs with decoy ignore files; directory-oriented patterns with negations; explicit watch lists; explicit ignore files) compared as a set of (path, applies_in, applies_to) with an independent walker built on the independent evaluator; errors must be empty; the same tree created in the opposite order (flipping tmpfs listing order) must give the same set.",
+   note="Symlinks, nested VCS metadata dirs and .git/config core.excludesFile are not generated. A bare `*` in a file loaded before the walk (explicit / origin-level VCS) also matches the origin itself - the directory-vs-own-ignore-file case the properties leave open - and is rewritten by the generator.",
+   technique="proptest differential against a reference walker + listing-order metamorphic relation",
+   ref="DESIGN.md §3 C14"),
  "C16": dict(
    text="Round trip from_str(to_string(e)) == e and equality of the serialised form with a reference encoder written from the documented field list, exhaustively for every filesystem event kind (41, hand-written spelling table), first-class signal, source and file type, and for generated events (0-8 tags in any order, UTF-8 paths incl. empty/non-ASCII/long, pids over u32, Signal::from(n) over i32, exit codes over the full i64/i32 ranges, metadata maps). Generated malformed tag objects of each known kind (random subsets of type-valid fields of all kinds, nulls, boundary codes) must parse, never be mistaken for another kind, be Unknown exactly when a required field is missing/contradictory, and re-serialise idempotently; structured raw JSON text must re-serialise to an equal event without panicking.",
    note="Reference encoder and kind table are the harness's transcription of the documented format (--emit-events-to docs, README, pinned snapshots). libFuzzer leg not built; the raw leg is grammar-based proptest.",
